@@ -71,8 +71,9 @@ CLAIM = {
             'there: the translator and its stated conventions (numbers are exact rationals; _value is a number or, '
             'for CHOICE, an int array; a[int(x)] += 1 = numpy index normalisation + increment, IndexError outside; '
             'int array / 0 reported as ZeroDivisionError unless the array is empty; array += array only under a '
-            'checked equal length; other is not self; the x = x.item() conversion of numpy scalars is the identity on '
-            'exact values, its presence is checked by generated_type_codes_and_conversion). Container level '
+            'checked equal length; other is not self; x.item() under a test that holds exactly for numpy scalars / 0-d arrays is '
+            'the identity on exact values - both paths of the test must do the same - and no unconverted parameter may '
+            'reach arithmetic or storage: generated_type_codes_and_conversion). Container level '
             '(harness/gen/c06sim.py, compositional rules into the primitives of Model/C06HeapOps.lean: names / size / '
             'getList / last / first / deref / setEntryNewList / listAppend, loops over a snapshot list of names as '
             'recursive functions): add_result, append_result, add_new_result, merge_all_results; trusted there: the '
